@@ -421,6 +421,14 @@ pub fn build(
         }
     }
 
+    if let Some(align) = align {
+        if !usize::is_power_of_two(align) {
+            anyhow::bail!(
+                "alignment {align} of type `{resolvee_path}` is not a power of two"
+            );
+        }
+    }
+
     let alignment = if packed {
         if align.is_some() {
             anyhow::bail!(
